@@ -38,15 +38,56 @@ CLAIMS = {
             "Value domains are the listed finite ones.",
             "bounded exhaustive enumeration of inputs x programs, differential against direct calls on the real code",
             "h_objects/objs"),
+    "C03": ("exploration",
+            "Every trait of the grammar tier, every generated group family, the hand-written structure members (five wrap_with forms) and every "
+            "runtime wrapper type x element type (argument, return and fn-pointer-field position) is expanded by the real generator driven as "
+            "a library and the printed expansion is compiled with improper_ctypes_definitions/improper_ctypes denied; a positive-control "
+            "crate (tuple, nested slice, Rust-ABI fn pointer) must be rejected or the run is a machinery failure; a token-level pass checks "
+            "that every vtable field is an extern \"C\" fn pointer and every generated struct carries repr(C)/transparent.",
+            "DESIGN.md §4 C03",
+            "rustc's FFI lints are the yardstick (the property's own wording); programs outside G are not claimed.",
+            "exhaustive enumeration of a bounded program grammar, compiler lint as per-program oracle",
+            "gen/expand_c03.py + engine/expander"),
+    "C05": ("exploration",
+            "Host and plugin (cdylib) are built in several variants (stable/nightly x debug/release x -Zrandomize-layout seeds), each with its "
+            "own tagging global allocator; for every (host build, plugin build) pair of the tier the host loads the plugin and explores all "
+            "lifecycle histories up to the depth bound with creation on one side and use/clone/cast/spawn/consume/drop on the other (objects, "
+            "groups, CVec, boxed slice, CBox, CArc, callbacks, iterators, both directions); observations must equal the single-module reference "
+            "run, no block may be freed by a module that did not allocate it or with another layout, context count and live-instance counters "
+            "must balance, plugin allocations == frees.",
+            "DESIGN.md §4 C05",
+            "Same target ABI on both sides; quick = 2 pairs, thorough = 36 pairs; unloading while plugin code runs is not modelled.",
+            "explicit-state exploration of the real code over a build-configuration matrix, differential against a single-module run",
+            "gen/xmod_c05.py + engine_xmod"),
+    "C17": ("exploration",
+            "API models (1-4 traits, 0-2 groups, 0-4 arguments of 10 kinds, three receivers, five return kinds incl. Self, Box/Mut/Ref, no "
+            "context / CArc, several instantiations, name clashes, config keys, C and C++) are rendered by a miniature cbindgen, pushed through "
+            "the REAL cglue-bindgen binary (stub cbindgen on PATH) and every generated wrapper is called from a generated mock translation unit "
+            "compiled with gcc/g++; each call must reach exactly its vtable slot with the container and the same arguments, return the slot's "
+            "result, and consuming wrappers / drop helpers must release instance and context exactly once while holding a context clone across the call. "
+            "Ten confirmed tool defects are recorded as known findings; causes that depend on unverifiable details of cbindgen's C++ output are recorded, not judged.",
+            "DESIGN.md §4 C17, §5.6",
+            "No cbindgen offline: the synthesiser (gen/bindgen_headers.py) is a model of cbindgen 0.20 validated against the published example headers.",
+            "exhaustive enumeration of a bounded header grammar through the real tool, executed against mock vtables",
+            "gen/bindgen_c17.py"),
+    "C18": ("exploration",
+            "Same header space plus several context types, wrapped-return structs, planted foreign declarations with CGlue-like names, all config "
+            "combinations and 8 argument layouts: the processed header must compile on its own (gcc -std=c99 / g++ -std=c++11), R fresh-process "
+            "runs must be byte-identical (R=5/25), planted declarations must survive verbatim and in order, the stub cbindgen must receive exactly the "
+            "post-`--` arguments minus the output path, and the processed header must land in that path.",
+            "DESIGN.md §4 C18, §5.5",
+            "Synthesised cbindgen output (see C17).",
+            "exhaustive enumeration of a bounded header/config grammar through the real tool, repeated-run and compiler oracles",
+            "gen/bindgen_c18.py"),
     "C04": ("exploration",
             "Raw-word view of generated layout: (a) for every trait of G the static vtable is read as machine words: exactly one pointer per "
             "method, word i is method i, and calling word i as a C caller would runs method i once; concrete and opaque objects have equal "
             "size/alignment/bits; (b) for every generated group family x enabled set x container x context the group object is read as words: "
             "vtable pointers in name order (mandatory, then optional, null when absent; every non-null one is called through), then instance, "
             "then context; cast/upcast keep the bits, the final form is mandatory + requested + container. "
-            "(Repeated independent expansion in fresh processes is part of the C03/expander step when built.)",
+            "(c) the expander is run in 5/20 fresh processes and from two crates over every input: the layout signature (ordered field/type lists of every repr(C) struct) must be identical.",
             "DESIGN.md §4 C04",
-            "Repeatability across processes/crates is not yet covered by this check; rustc repr(C) is trusted.",
+            "rustc repr(C) is trusted; both sides of a plugin boundary are compared by the layout-signature hash in the C05 harness.",
             "bounded exhaustive enumeration of programs/configurations on the real code (raw-memory oracle)",
             "h_objects/objs"),
     "C06": ("model_checking",
@@ -217,6 +258,9 @@ def main():
             {"name": "sendsync_c09", "path": "/verif/gen/sendsync_c09.py", "serves_properties": ["C09"], "kind_free_text": "probe-crate generator + per-cell rustc runs"},
             {"name": "h_layout", "path": "/verif/engine_layout", "serves_properties": ["C20"], "kind_free_text": "separate cargo workspace (layout_checks / abi_stable); gen/layout_gen.py emits twin modules"},
             {"name": "h_life", "path": "/verif/engine/h_life", "serves_properties": ["C06", "C07"], "kind_free_text": "lifecycle history explorer over a tree of generated objects sharing one context"},
+            {"name": "expander", "path": "/verif/engine/expander", "serves_properties": ["C03", "C04"], "kind_free_text": "drives cglue_gen as a library: expansion printer + layout signature"},
+            {"name": "xmod", "path": "/verif/engine_xmod", "serves_properties": ["C05"], "kind_free_text": "separate cargo workspace: xapi (shared interface + tagging allocator), xplugin, xplugin_so (cdylib), xhost (loader + history explorer)"},
+            {"name": "bindgen", "path": "/verif/gen/bindgen_model.py", "serves_properties": ["C17", "C18"], "kind_free_text": "API model enumerators, miniature cbindgen (bindgen_headers.py), mock TU generator (bindgen_mock.py), tool runner with stub cbindgen (bindgen_tool.py)"},
             {"name": "h_task", "path": "/verif/engine/h_task", "serves_properties": ["C19"], "kind_free_text": "history explorer over wakers crossing a cglue Future/Stream/Sink object"},
             {"name": "h_loom_task", "path": "/verif/engine/h_loom_task", "serves_properties": ["C19"], "kind_free_text": "loom model of the real cglue/src/task/mod.rs over a loom-backed tarc shim (engine/tarc_shim)"},
             {"name": "h_loom_arc", "path": "/verif/engine/h_loom_arc", "serves_properties": ["C10"], "kind_free_text": "loom model of the real cglue/src/arc.rs (hook h33p_cglue_verif swaps std Arc for loom Arc)"},
